@@ -94,6 +94,8 @@ UpdSig(u, item, names, values) ==
                ResolveOK(r, names) /\ ResolveOK(AllTargets(u)[t], names) /\ Overlap(Resolve(r, names), Resolve(AllTargets(u)[t], names))
                /\ Len(AllTargets(u)) > 1
          THEN { <<"rhs-reads-a-target">> } ELSE {})
+  \cup (IF \E i \in DOMAIN u.set : \E r \in RhsReads(u.set[i].v) : ResolveOK(r, names) /\ BlockedIn(AsMap(item), Resolve(r, names))
+         THEN { <<"rhs-path-blocked">> } ELSE {})
   \cup (LET res == ApplyU(u, item, names, values, {"pk"}) IN
         IF ItemHasEmpty(item) \/ (res.ok /\ ItemHasEmpty(res.item)) THEN { <<"empty-container">> } ELSE {})
 ReservedNested(ts) == \E p \in DOMAIN ts : p > 1 /\ ts[p].t = "NAME" /\ TokAt(ts, p + 1) # "(" /\ IsReserved(ts[p].s) /\ ts[p - 1].t = "."
@@ -109,14 +111,19 @@ PhMarks(e) ==
       used == IF ~pr.ok THEN {} ELSE IF cond THEN CondNames(pr.ast) \cup CondVals(pr.ast) ELSE UpdNames(pr.ast) \cup UpdVals(pr.ast)
       supplied == (DOMAIN e.names) \cup (DOMAIN e.values)
       unused == supplied \ used
-      masked == { k \in unused : \E i \in DOMAIN e.pk : e.pk[i][1] = k /\ IsSubB(e.pk[i][2], e.text) }
-  IN (IF used \ supplied # {} THEN { <<"placeholders", "undefined">> } ELSE {})
+      \* a supplied key that is not "#" or ":" followed by letters, digits and underscores is malformed: that is never the known
+      \* deviation about substrings, whatever else is true of it
+      wellFormed(bs) == Len(bs) >= 2 /\ \A j \in 2..Len(bs) : IsWord(bs[j])
+      masked == { k \in unused : \E i \in DOMAIN e.pk : e.pk[i][1] = k /\ IsSubB(e.pk[i][2], e.text) /\ wellFormed(e.pk[i][2]) }
+  IN (IF \E i \in DOMAIN e.pk : ~wellFormed(e.pk[i][2]) THEN { <<"placeholders", "malformed-key">> } ELSE {})
+     \cup (IF used \ supplied # {} THEN { <<"placeholders", "undefined">> } ELSE {})
      \cup (IF unused # {} /\ unused = masked THEN { <<"placeholders", "unused-but-substring-of-the-text">> } ELSE {})
      \cup (IF unused \ masked # {} THEN { <<"placeholders", "unused">> } ELSE {})
 \* value placeholders standing where the grammar wants a name: after a dot (m.:v) and as first argument of if_not_exists;
 \* VasN reads them as names, to NAME that known deviation (the repository's tests use ":hashA.:a")
 VasN(ts) == [i \in DOMAIN ts |->
-               IF ts[i].t = "VALUE" /\ i > 1 /\ (ts[i-1].t = "." \/ (i > 2 /\ ts[i-1].t = "(" /\ IsFn(ts, i - 2, "if_not_exists")))
+               IF ts[i].t = "VALUE" /\ (\/ i > 1 /\ (ts[i-1].t = "." \/ (i > 2 /\ ts[i-1].t = "(" /\ IsFn(ts, i - 2, "if_not_exists")))
+                                        \/ i < Len(ts) /\ ts[i+1].t \in {".", "["})     \* a value placeholder as the head of a path (":obj.size")
                THEN [ts[i] EXCEPT !.t = "NAME"] ELSE ts[i]]
 TextSig0(e) == LET ts == IF e.op = "MatchText" THEN Lex(e.text) ELSE StripVP(Lex(e.text))
                    vn == VasN(ts) IN
@@ -137,6 +144,10 @@ NumeralsOf(v) == CASE v.t = "N" -> {v.n}
                    [] v.t = "M" -> UNION { NumeralsOf(v.m[k]) : k \in DOMAIN v.m }
                    [] OTHER -> {}
 ItemNumerals(it) == UNION { NumeralsOf(it[k]) : k \in DOMAIN it }
+RECURSIVE DigitsInt(_), Pow5(_)
+DigitsInt(d) == IF d = <<>> THEN 0 ELSE DigitsInt(SubSeq(d, 1, Len(d) - 1)) * 10 + d[Len(d)]
+Pow5(k) == IF k = 0 THEN 1 ELSE 5 * Pow5(k - 1)
+Dyadic(n) == LET a == DNorm(n) IN a.e >= 0 \/ (Len(a.d) <= 9 /\ -a.e <= 9 /\ DigitsInt(a.d) % Pow5(-a.e) = 0)
 NumMarks(e) ==
   LET ns == ItemNumerals(e.item) \cup ItemNumerals(e.values)
       arith == e.op \in {"Apply", "ApplyText"}
@@ -151,7 +162,8 @@ NumMarks(e) ==
                     ELSE \E x, y \in ns : long(DAdd(x, y)) \/ long(DSub(x, y))
   IN (IF (\E n \in ns : long(n)) \/ (arith /\ longResult)
       THEN { <<"number", "more-than-15-digits">> } ELSE {})
-     \cup (IF arith /\ \E n \in ns : DNorm(n).e < 0 THEN { <<"number", "fraction-in-update">> } ELSE {})
+     \* decimal fractions that binary floating point cannot carry exactly: d * 10^-k is exact iff 5^k divides d (1.25, 0.5, -1.5 are)
+     \cup (IF arith /\ \E n \in ns : ~Dyadic(n) THEN { <<"number", "fraction-in-update">> } ELSE {})
 LabSig1(e) == IF e.op \in {"MatchText", "ApplyText"} THEN TextSig(e) ELSE
              IF e.op = "Match" THEN CondSig(e.ast, e.item, e.names, e.values) \cup (IF ItemHasEmpty(e.item) THEN { <<"empty-container">> } ELSE {})
              ELSE UpdSig(e.ast, e.item, e.names, e.values)
@@ -221,7 +233,7 @@ TextFails(e) ==
                                                              /\ Overlap(Resolve(tg[i], e.names), Resolve(tg[j], e.names))
                   IN
                   IF overlapping THEN {}     \* error or last-wins (D.3): only totality is demanded
-                  ELSE IF res.ok /\ SoftRemove(pr.ast, e.item, e.names) /\ isErr
+                  ELSE IF res.ok /\ (SoftRemove(pr.ast, e.item, e.names) \/ SoftDefault(pr.ast, e.item, e.names, e.values)) /\ isErr
                   THEN (IF out.after.some /\ ~SameItem(out.after.i, e.item) THEN { ch \o ".Modified" } ELSE {})
                   ELSE IF res.ok
                   THEN (IF out.o = "ok" THEN {} ELSE { ch \o ".Outcome" })
@@ -249,7 +261,7 @@ LabFails(e) ==
                   (IF (out.o \in {"T", "F"} /\ out.o \in allowed) \/ (isErr /\ "E" \in allowed) THEN {} ELSE { ch \o ".Outcome" })
                   \cup (IF out.after.some /\ ~SameItem(out.after.i, e.item) THEN { ch \o ".Modified" } ELSE {})
              ELSE LET res == ApplyU(e.ast, e.item, e.names, e.values, {"pk"})
-                      soft == SoftRemove(e.ast, e.item, e.names)
+                      soft == SoftRemove(e.ast, e.item, e.names) \/ SoftDefault(e.ast, e.item, e.names, e.values)
                   IN
                   IF res.ok /\ soft /\ isErr
                   THEN (IF out.after.some /\ ~SameItem(out.after.i, e.item) THEN { ch \o ".Modified" } ELSE {})
